@@ -91,11 +91,14 @@ class Algo:
     def extract(self):
         b = self.body()
         loops = [i for i, s in enumerate(b) if isinstance(s, ast.For)]
-        if len(loops) == 1 and isinstance(b[-1], ast.Return) and isinstance(b[-1].value, ast.Name) and loops[0] == len(b) - 2:
+        self.out_expr = None
+        if len(loops) == 1 and isinstance(b[-1], ast.Return) and loops[0] == len(b) - 2 and self._loop_state(b[loops[0]], b[-1].value):
             self.kind = 'loop'
             self.k = loops[0]
             self.loop = b[self.k]
-            self.state_var = b[-1].value.id
+            self.state_var = self._loop_state(self.loop, b[-1].value)
+            if not isinstance(b[-1].value, ast.Name):
+                self.out_expr = b[-1].value      # checksum = out(final state)
             it = self.loop.iter
             self.enum = isinstance(it, ast.Call) and isinstance(it.func, ast.Name) and it.func.id == 'enumerate'
             self.uses_pos = self.enum
@@ -178,6 +181,56 @@ class Algo:
                                 return
         raise Unsupported('checksum() of %s is in none of the recognised fold forms' % self.modname)
 
+    def _loop_state(self, loop, ret):
+        """the single variable carried by the loop that the returned expression is a function of (None: not this form)"""
+        if isinstance(ret, ast.Name):
+            return ret.id
+        assigned = {t.id for n in ast.walk(loop) if isinstance(n, (ast.Assign, ast.AugAssign))
+                    for t in (n.targets if isinstance(n, ast.Assign) else [n.target]) if isinstance(t, ast.Name)}
+        targets = {n.id for n in ast.walk(loop.target) if isinstance(n, ast.Name)}
+        used = {n.id for n in ast.walk(ret) if isinstance(n, ast.Name)}
+        cand = (used & assigned) - targets
+        if len(cand) != 1 or (used & targets):
+            return None
+        for n in ast.walk(ret):
+            if isinstance(n, (ast.Call, ast.Lambda, ast.GeneratorExp, ast.ListComp)):
+                return None
+        return next(iter(cand))
+
+    def out(self, I, state):
+        """the checksum as a function of the final state"""
+        if self.out_expr is None:
+            return state
+        env = self.base_env(I, self.alphabet[0])
+        I.block(self.body()[:self.k], env, self.fn.module)
+        env[self.state_var] = state
+        return I.eval(self.out_expr, env, self.fn.module)
+
+    def reachable(self, limit=400):
+        """the states reachable from the initial one over the alphabet, by exhaustive concrete evaluation of the extracted
+        step (loops whose step does not depend on the position); None when it does not close within the limit"""
+        if self.kind != 'loop' or self.uses_pos:
+            return None
+        seen = {self.init}
+        work = [self.init]
+        while work:
+            st = work.pop()
+            for ch in self.alphabet:
+                I = Interp(Ctx())
+                I.fnstack.append('c06')
+                try:
+                    t = self.step(I, st, 0, ch)
+                except (Raise, Unsupported):
+                    return None
+                if not isinstance(t, int) or isinstance(t, bool):
+                    return None
+                if t not in seen:
+                    seen.add(t)
+                    work.append(t)
+                    if len(seen) > limit:
+                        return None
+        return seen
+
     def _direction_paritysum(self):
         ctx = Ctx()
         I = Interp(ctx)
@@ -247,6 +300,10 @@ class Algo:
 class Lemmas:
     def __init__(self, rep, algo, rng, good):
         self.rep, self.a, self.rng, self.good = rep, algo, rng, good
+        self.states = None          # the exact reachable state set, where it was computed
+        if isinstance(rng, (set, frozenset)):
+            self.states = frozenset(rng)
+            self.rng = (min(rng), max(rng))
         self.alpha = ISet.of(algo.alphabet)
         self.failed = []
 
@@ -256,7 +313,7 @@ class Lemmas:
             ctx.add(z3.And(p >= 0, p <= 1, s >= self.rng[0], s <= self.rng[1]))
             return (p, s)
         s = ctx.fresh_int('s' + tag)
-        ctx.add(z3.And(s >= self.rng[0], s <= self.rng[1]))
+        ctx.add(self.in_range(s))
         return s
 
     def sym_char(self, ctx, tag):
@@ -276,6 +333,12 @@ class Lemmas:
     def in_range(self, s):
         if isinstance(s, tuple):
             return z3.And(s[0] >= 0, s[0] <= 1, s[1] >= self.rng[0], s[1] <= self.rng[1])
+        if self.states is not None:
+            if not is_sym(s):
+                return z3.BoolVal(s in self.states)
+            if len(self.states) == self.rng[1] - self.rng[0] + 1:
+                return z3.And(s >= self.rng[0], s <= self.rng[1])
+            return z3.Or([s == v for v in sorted(self.states)])
         return z3.And(s >= self.rng[0], s <= self.rng[1]) if is_sym(s) else z3.BoolVal(self.rng[0] <= s <= self.rng[1])
 
     def prove(self, name, run, what, lift=None):
@@ -421,7 +484,7 @@ class Lemmas:
             s = self.sym_state(ctx, '')
             key = (a.modname, 'checksum')
             old = CONTRACTS.get(key)
-            CONTRACTS[key] = lambda I_, fn, args, kwargs: s
+            CONTRACTS[key] = lambda I_, fn, args, kwargs: a.out(I_, s)
             try:
                 c = I.call(calc, ['payload'], dict(a.kwargs), {}, calc.module)
             finally:
@@ -556,6 +619,7 @@ def crosscheck_fold(rep, a, maxlen=4):
                 st = a.step(I, st, i, c)
             if isinstance(st, tuple):
                 st = st[1]
+            st = a.out(I, st)
             return toz3(Eq(real, st)), {}
         paths, status = explore_closure(run, time_limit=60)
         ok = status == 'ok'
@@ -582,6 +646,27 @@ def algo_generic(rep, name, modname, alphabet, rng, good, kwargs=None, lemmas=('
     rep.functions.update([modname + ':checksum', modname + ':' + calc, modname + ':validate'])
     rep.add('C06/%s/extraction' % name, 'proved', 'ast', detail='form=%s reverse=%s position-dependent=%s' % (a.kind, a.reverse, a.uses_pos))
     goodst = (None, good) if a.kind == 'paritysum' else good
+    R = a.reachable()
+    if R is not None:
+        # the invariant is the exact reachable set of the real step, not a range written down here
+        rep.add('C06/%s/reachable-states' % name, 'exhaustive', 'eval', detail='closure of the initial state under the extracted step: %d states %r..%r'
+                % (len(R), min(R), max(R)))
+        rng = R
+    if a.out_expr is not None:
+        if R is None:
+            rep.add('C06/%s/hOut' % name, 'undecided', 'eval', detail='checksum() returns a function of the state but the state set was not computed')
+            return None
+        outs = {}
+        for st in sorted(R):
+            I0 = Interp(Ctx())
+            I0.fnstack.append('c06')
+            outs.setdefault(a.out(I0, st), []).append(st)
+        pre = outs.get(good, [])
+        if len(pre) != 1 or any(len(v) > 1 for v in outs.values()):
+            rep.add('C06/%s/hOut' % name, 'undecided', 'eval', detail='the returned checksum is not an injective function of the state: %r' % (outs,))
+            return None
+        rep.add('C06/%s/hOut' % name, 'exhaustive', 'eval', detail='checksum() returns an injective function of the final state; accepting state %r' % pre[0])
+        good = pre[0]
     L = Lemmas(rep, a, rng, good)
     crosscheck_fold(rep, a, 3 if len(alphabet) > 12 else 4)
     if 'range' in lemmas:
@@ -646,6 +731,77 @@ def glue_validate(rep, name, modname, kwargs=None, needs_nonempty=True):
         rep.refuted('C06/%s/glue-validate' % name, modname, 'glue', 'validate() is not "checksum == good"', dict(function=modname + ':validate'), False)
 
 
+def bounded_native(rep, tier):
+    """a bounded stand-in next to the lemmas (labelled bounded, never counted as proved): the user-visible guarantees on the
+    real functions for every string up to a small length.  It still speaks when a rewritten checksum() no longer matches
+    one of the fold forms the extraction recognises."""
+    import itertools
+    hexa = '0123456789abcdef'
+    a36 = '0123456789ABCDEFGHIJKLMNOPQRSTUVWXYZ'
+    cases = [
+        # name, module, alphabet, kwargs, payload alphabet, transpositions claimed, pairs excluded
+        ('luhn[10]', 'stdnum.luhn', '0123456789', {}, None, True, {('0', '9'), ('9', '0')}),
+        ('luhn[16]', 'stdnum.luhn', hexa, dict(alphabet=hexa), None, False, ()),
+        ('verhoeff', 'stdnum.verhoeff', '0123456789', {}, None, True, ()),
+        ('damm', 'stdnum.damm', '0123456789', {}, None, True, ()),
+        ('mod_11_2', 'stdnum.iso7064.mod_11_2', '0123456789X', {}, '0123456789', True, ()),
+        ('mod_37_2[37]', 'stdnum.iso7064.mod_37_2', a36 + '*', dict(alphabet=a36 + '*'), a36, True, ()),
+        ('mod_11_10', 'stdnum.iso7064.mod_11_10', '0123456789', {}, None, False, ()),
+        ('mod_37_36[36]', 'stdnum.iso7064.mod_37_36', a36, dict(alphabet=a36), None, False, ()),
+        ('mod_37_36[10]', 'stdnum.iso7064.mod_37_36', '0123456789', dict(alphabet='0123456789'), None, False, ()),
+    ]
+    t0 = time.time()
+    total = 0
+    for name, modname, alpha, kw, palpha, transp, excl in cases:
+        mod = __import__(modname, fromlist=['x'])
+        palpha = palpha or alpha
+        maxlen = (4 if tier == 'quick' else 5) if len(palpha) <= 12 else (2 if tier == 'quick' else 3)
+        bad = None
+        for n in range(1, maxlen + 1):
+            for tup in itertools.product(palpha, repeat=n):
+                p0 = ''.join(tup)
+                total += 1
+                try:
+                    c = mod.calc_check_digit(p0, **kw)
+                    w = p0 + c
+                    if not mod.is_valid(w, **kw):
+                        bad = (p0, w, 'payload + generated check symbol is invalid')
+                        break
+                    for x in alpha:
+                        if x != c and mod.is_valid(p0 + x, **kw):
+                            bad = (w, p0 + x, 'a second check symbol is accepted')
+                            break
+                    if bad:
+                        break
+                    for i in range(len(w)):
+                        # a substituted character is of the same kind: the check-only symbol (X, *) stays in the last place
+                        for x in (alpha if i == len(w) - 1 else palpha):
+                            if x != w[i] and mod.is_valid(w[:i] + x + w[i + 1:], **kw):
+                                bad = (w, w[:i] + x + w[i + 1:], 'single substitution accepted')
+                                break
+                        if bad:
+                            break
+                        if transp and i + 1 < len(w) and w[i] != w[i + 1] and (w[i], w[i + 1]) not in excl \
+                                and (w[i + 1] in palpha or i + 1 < len(w) - 1):
+                            w2 = w[:i] + w[i + 1] + w[i] + w[i + 2:]
+                            if (w2[-1] in alpha and all(ch in palpha for ch in w2[:-1])) and mod.is_valid(w2, **kw):
+                                bad = (w, w2, 'adjacent transposition accepted')
+                                break
+                except Exception as e:      # noqa: B902
+                    bad = (p0, None, 'raises %s: %s' % (type(e).__name__, e))
+                if bad:
+                    break
+            if bad:
+                break
+        if bad:
+            rep.refuted('C06/%s/bounded-native' % name, modname, 'bounded: ' + bad[2], '%s: %s (%r -> %r)' % (name, bad[2], bad[0], bad[1]),
+                        dict(function=modname + ':validate', input=bad[0], altered=bad[1], opts=kw, demonstrates=bad[2]), True)
+    rep.add('C06/bounded-native', 'bounded', 'eval', time.time() - t0,
+            detail='%d payloads (every string up to length 2..5 over each alphabet) through the real calc_check_digit/is_valid: completion, '
+                   'uniqueness, substitutions, claimed transpositions' % total)
+
+
+
 def check(prop, tier, args):
     rep = Report('C06', tier, 'proof', './check C06 --tier %s' % tier, seed=int(os.environ.get('VERIF_SEED', '0') or 0))
     isets.warm()
@@ -677,6 +833,7 @@ def check(prop, tier, args):
                        ('mod_11_10', 'stdnum.iso7064.mod_11_10', None), ('mod_37_36', 'stdnum.iso7064.mod_37_36', None),
                        ('mod_97_10', 'stdnum.iso7064.mod_97_10', None)):
         glue_validate(rep, nm, mn, kw)
+    bounded_native(rep, tier)
     rep.assumptions += [
         'a Python for-loop / comprehension over a sequence is List.foldl of its body (glue between the extracted step and Lean)',
         'integers are mathematical (exact for Python ints)',
